@@ -131,7 +131,15 @@ fn regex<'a, T: Queryable>(lhs: State<'a, T>, rhs: State<'a, T>, substr: bool) -
         _ => None,
     };
 
-    match (to_str(lhs), to_str(rhs)) {
+    // a pattern written as a string literal still carries the JSONPath escape of every backslash;
+    // a pattern taken from the document is a regular expression as it stands
+    let to_pattern = |s: State<'a, T>| match s.data {
+        Data::Value(v) => v.as_str().map(|s| s.replace("\\\\", "\\")),
+        Data::Ref(Pointer { inner, .. }) => inner.as_str().map(|s| s.to_string()),
+        _ => None,
+    };
+
+    match (to_str(lhs), to_pattern(rhs)) {
         // the pattern itself has to be a regular expression: anchoring must not turn `a)|(b` into one
         (Some(lhs), Some(rhs)) => Regex::new(&prepare_regex(rhs.clone(), true))
             .and_then(|_| Regex::new(&prepare_regex(rhs, substr)))
@@ -147,12 +155,6 @@ fn prepare_regex(pattern: String, substring: bool) -> String {
     } else {
         pattern.to_string()
     };
-    let pattern = if pattern.contains("\\\\") {
-        pattern.replace("\\\\", "\\")
-    } else {
-        pattern.to_string()
-    };
-
     pattern
 }
 
